@@ -113,6 +113,8 @@ def same_file(ops):
 
 
 def golden(hs, src, planted_hs=None, opts=None):
+    # the file name a design was loaded under is not part of the design: the golden is the same with and without it
+    opts = {kk: vv for kk, vv in (opts or {}).items() if kk != "fname"} or None
     k = (hs, srckey(src + repr(opts) if opts else src))
     g = _golden.get(k)
     if g is None and planted_hs is not None:
@@ -196,13 +198,15 @@ def run_one(seed, idx, tier):
         hs = hss[(ei + rep) % nh]
         rs = rng.Stream(seed, "C11", "A", j)
         follow = rs.permute(vk + ctxinv)
+        if tier == "quick":
+            follow = follow[:9]  # quick tier: a seeded half of the designs after each rejection (thorough: all of them)
         ops = [["compile", p[e][1]]]
         names = [e]
         for k in follow:
             src = v[k] if k in v else p[k][1]
             ops += [["compile", src], ["compile", src]]
             names += [k, k]
-        if ei % 2:
+        if ei % 4 == 1:
             same_file(ops)
     elif grp == "A2":
         # adjacent pairs: [reject e, compile d, compile d] for every (d, e)
